@@ -22,7 +22,7 @@ import (
 
 func init() {
 	vf.Register(&vf.CheckDef{ID: "C04", Level: "model_checking", Run: run,
-		Workers: map[string]vf.WorkerFunc{"sched": schedWorker, "arrival": arrivalWorker},
+		Workers: map[string]vf.WorkerFunc{"sched": schedWorker, "arrival": arrivalWorker, "audit": auditWorker},
 		Replay:  replay})
 }
 
@@ -42,6 +42,7 @@ type chain struct {
 
 type input struct {
 	Name  string
+	Flags []string // extra reader flags
 	Fmt   string   // dkvp csv json nidx
 	Files []string // file contents
 	Recs  []string // the records as dkvp lines (for references)
@@ -348,6 +349,7 @@ func (c *config) argv(dir string) ([]string, vf.VFS) {
 	case "nidx":
 		argv = append(argv, "--inidx", "--ifs", " ", "--oxtab", "--ops", "=") // field names 1,2: printed as 1=..,2=.. per line pair
 	}
+	argv = append(argv, c.In.Flags...)
 	argv = append(argv, "--records-per-batch", fmt.Sprint(c.B))
 	argv = append(argv, c.Chain.Flags...)
 	if c.Chain.NoIn {
@@ -415,6 +417,25 @@ func cfgKey(c *config) string {
 // explore one configuration; report per-execution violations; return outcome set.
 func exploreConfig(w *vf.Worker, c *config, dir string) []string {
 	spec := c.spec(dir)
+	if n := os.Getenv("VERIF_C04_RANDOM"); n != "" && os.Getenv("VERIF_C04_DEBUG") != "" {
+		var k int
+		fmt.Sscan(n, &k)
+		h := vf.RandomWalks(spec, k, 1)
+		df, _ := os.OpenFile(os.Getenv("VERIF_C04_DEBUG"), os.O_APPEND|os.O_CREATE|os.O_WRONLY, 0644)
+		fmt.Fprintf(df, "RANDOM %s: %d walks\n", cfgKey(c), k)
+		for o, cnt := range h {
+			fmt.Fprintf(df, "   %d x %q\n", cnt, o)
+		}
+		df.Close()
+	}
+	if os.Getenv("VERIF_C04_AUDIT") != "" && os.Getenv("VERIF_C04_DEBUG") != "" {
+		df, _ := os.OpenFile(os.Getenv("VERIF_C04_DEBUG"), os.O_APPEND|os.O_CREATE|os.O_WRONLY, 0644)
+		fmt.Fprintf(df, "AUDIT %s\n", cfgKey(c))
+		for _, f := range vf.AuditCaching(spec, 3000) {
+			fmt.Fprintf(df, "   %s\n", f)
+		}
+		df.Close()
+	}
 	r := vf.Explore(spec)
 	w.Rep.States += r.States
 	w.Rep.Transitions += r.Transitions
@@ -429,8 +450,7 @@ func exploreConfig(w *vf.Worker, c *config, dir string) []string {
 		return map[string]any{"chain": c.Chain.Name, "input": c.In.Name, "b": c.B, "argv": argv, "files": c.In.Files, "aux": c.Chain.Aux, "schedule": sched}
 	}
 	if r.Stalled {
-		w.Violation("stall:"+key, "a goroutine ran 60 s without reaching a scheduling point (non-termination) in "+key, rp(r.StalledAt))
-		w.Abandon()
+		w.Stalled("stall:"+key, "a goroutine ran 60 s without reaching a scheduling point (non-termination) in "+key, rp(r.StalledAt))
 	}
 	if !r.Exhaustive {
 		w.Inexhaustive(fmt.Sprintf("%s: execution budget %d hit (states=%d)", key, spec.MaxExecs, r.States))
@@ -450,6 +470,14 @@ func exploreConfig(w *vf.Worker, c *config, dir string) []string {
 		w.Violation("fault:"+key+":"+trunc(f, 80), fmt.Sprintf("%s in %d executions of %s", f, n, key), rp(r.FaultAt[f]))
 	}
 	outs := r.OutcomeList()
+	if os.Getenv("VERIF_C04_DEBUG") != "" {
+		df, _ := os.OpenFile(os.Getenv("VERIF_C04_DEBUG"), os.O_APPEND|os.O_CREATE|os.O_WRONLY, 0644)
+		fmt.Fprintf(df, "DEBUG %s: execs=%d completed=%d cut=%d states=%d outcomes=%d\n", key, r.Execs, r.Completed, r.Cut, r.States, len(outs))
+		for _, o := range outs {
+			fmt.Fprintf(df, "   %d x %q\n", r.Outcomes[o], o)
+		}
+		df.Close()
+	}
 	if len(outs) > 1 {
 		w.Violation("schedule-dependent:"+key, fmt.Sprintf("%d distinct outcomes over the schedules of %s: %q vs %q", len(outs), key, trunc(outs[0], 300), trunc(outs[1], 300)),
 			map[string]any{"chain": c.Chain.Name, "input": c.In.Name, "b": c.B, "schedule_a": r.Witness[outs[0]], "schedule_b": r.Witness[outs[1]], "outcome_a": outs[0], "outcome_b": outs[1]})
@@ -468,9 +496,9 @@ func trunc(s string, n int) string {
 type pairKey struct{ chain, in string }
 
 func enumerate(quick bool) (pairs [][]*config) {
-	ns := []int{0, 1, 2, 3, 4}
+	ns := []int{0, 1, 2, 3}
 	if !quick {
-		ns = []int{0, 1, 2, 3, 4, 5, 6}
+		ns = []int{0, 1, 2, 3, 4, 5}
 	}
 	var inputs []input
 	for _, n := range ns {
@@ -484,6 +512,43 @@ func enumerate(quick bool) (pairs [][]*config) {
 			inputs = append(inputs, mkInput(f, nmax, 2))
 		}
 	}
+	if quick {
+		// one longer input for the chains in which an early-exit signal overtakes a verb that must see everything
+		// (tee before head): with N<=4 the reader has always read the whole input before it can notice the signal
+		inputs = append(inputs, input{Name: "dkvp-long:N=5tee", Fmt: "dkvp", Files: mkInput("dkvp", 5, 1).Files, Recs: mkInput("dkvp", 5, 1).Recs})
+	}
+	// reader state that must survive batch boundaries: schema-change blocks (csvlite / pprint: a blank line, then a
+	// new header), comment lines, implicit header, ragged rows, a header repeated in a second file
+	for _, cut := range []int{1, 2, 3} {
+		var recs []string
+		lite := "i,g\n"
+		pp := "i g\n"
+		for i := 1; i <= 4; i++ {
+			if i == cut+1 {
+				lite += "\nj,g\n"
+				pp += "\nj g\n"
+			}
+			k := "i"
+			if i > cut {
+				k = "j"
+			}
+			recs = append(recs, fmt.Sprintf("%s=%d,g=a", k, i))
+			lite += fmt.Sprintf("%d,a\n", i)
+			pp += fmt.Sprintf("%d a\n", i)
+		}
+		inputs = append(inputs,
+			input{Name: fmt.Sprintf("csvlite-schema-change-after-%d", cut), Fmt: "csvlite", Files: []string{lite}, Recs: recs},
+			input{Name: fmt.Sprintf("pprint-schema-change-after-%d", cut), Fmt: "pprint", Files: []string{pp}, Recs: recs})
+	}
+	inputs = append(inputs,
+		input{Name: "csv-comments", Fmt: "csv", Flags: []string{"--skip-comments"}, Files: []string{"i,g\n1,a\n#x\n2,b\n#y\n#z\n3,a\n"}, Recs: []string{"i=1,g=a", "i=2,g=b", "i=3,g=a"}},
+		input{Name: "dkvp-comments", Fmt: "dkvp", Flags: []string{"--skip-comments"}, Files: []string{"#c\ni=1,g=a\n#x\ni=2,g=b\ni=3,g=a\n#e\n"}, Recs: []string{"i=1,g=a", "i=2,g=b", "i=3,g=a"}},
+		input{Name: "csv-implicit-header", Fmt: "csv", Flags: []string{"--implicit-csv-header"}, Files: []string{"1,a\n2,b\n3,a\n"}, Recs: []string{"1=1,2=a", "1=2,2=b", "1=3,2=a"}},
+		input{Name: "csv-ragged", Fmt: "csv", Flags: []string{"--allow-ragged-csv-input"}, Files: []string{"i,g\n1,a\n2\n3,a,x\n"}, Recs: []string{"i=1,g=a", "i=2", "i=3,g=a,3=x"}},
+		input{Name: "csv-two-files-other-header", Fmt: "csv", Files: []string{"i,g\n1,a\n2,b\n", "g,i\nb,3\n"}, Recs: []string{"i=1,g=a", "i=2,g=b", "g=b,i=3"}},
+		input{Name: "csvlite-two-files-same-header", Fmt: "csvlite", Files: []string{"i,g\n1,a\n", "i,g\n2,b\n3,a\n"}, Recs: []string{"i=1,g=a", "i=2,g=b", "i=3,g=a"}},
+		input{Name: "dkvp-heterogeneous", Fmt: "dkvp", Files: []string{"i=1,g=a\nh=2\ni=3,g=b,k=9\ni=4\n"}, Recs: []string{"i=1,g=a", "h=2", "i=3,g=b,k=9", "i=4"}},
+	)
 	byName := map[pairKey][]*config{}
 	var order []pairKey
 	for _, in := range inputs {
@@ -497,6 +562,24 @@ func enumerate(quick bool) (pairs [][]*config) {
 				if strings.Contains(ch.Name, "-g") {
 					continue
 				}
+			}
+			if in.Name == "dkvp-long:N=5tee" {
+				if ch.Name != "tee @T then head -n 1" {
+					continue
+				}
+				ch.Batch = []int{1}
+			}
+			custom := strings.Contains(in.Name, "-") && !strings.Contains(in.Name, ":N=")
+			if custom {
+				keep := map[string]bool{"cat": true, "head -n 1": true, "head -n 2": true, "head -n 2 then head -n 1": true, "tac": true, "tail -n 1": true,
+					"tee @T then head -n 1": true, "cat then head -n 2": true, "step -a delta,shift -f i": true, "cat -n -g g": true, "count-similar -g g": true,
+					`put print "p".$i`: true, "nothing": true, "sort -nr i": true, "fill-down -a -f g then sec2gmt i": true}
+				if !keep[ch.Name] {
+					continue
+				}
+			}
+			if custom && ch.Ref != nil && !(ch.Name == "cat" || ch.Name == "tac" || ch.Name == "nothing" || strings.HasPrefix(ch.Name, "head -n") && !strings.Contains(ch.Name, "put") && !strings.Contains(ch.Name, "-g") || ch.Name == "tail -n 1" || strings.HasPrefix(ch.Name, "tee @T then head") || strings.HasPrefix(ch.Name, "cat then head")) {
+				ch.Ref = nil // references that look inside the records assume the i/g schema: singleton law only
 			}
 			if in.Fmt != "dkvp" && !(strings.HasPrefix(ch.Name, "cat") || strings.HasPrefix(ch.Name, "head -n 1") || strings.HasPrefix(ch.Name, "head -n 2 then head") || ch.Name == "tac" || strings.HasPrefix(ch.Name, "tee")) {
 				continue // other readers: the reader-facing chains only
@@ -542,6 +625,9 @@ func schedWorker(w *vf.Worker) {
 		if !w.Mine(idx) {
 			continue
 		}
+		if f := os.Getenv("VERIF_C04_ONLY"); f != "" && !strings.Contains(cfgs[0].Chain.Name+"|"+cfgs[0].In.Name, f) {
+			continue // debugging aid; forces exhaustive=false
+		}
 		w.Begin(idx)
 		w.Label(func() string { return cfgs[0].Chain.Name + " | " + cfgs[0].In.Name })
 		union := map[string][]int{}
@@ -586,16 +672,67 @@ func schedWorker(w *vf.Worker) {
 	// singleton law across them is already enforced by the union.
 }
 
+// auditWorker cross-examines the explorer itself on a few configurations: (1) every state met by uniformly random
+// walks (no caching) must have been expanded by the cached DFS with the SAME option set (equal keys must imply equal
+// enabled options), and (2) every outcome a random walk produces must be among the outcomes of the exhaustive search.
+// A failure is an infrastructure error (BROKEN), never a verdict about Miller. It decides nothing by sampling: it
+// guards the soundness of the state caching, which once merged "goroutine not started" with "started and parked".
+func auditWorker(w *vf.Worker) {
+	if !verifrt.Instrumented {
+		w.Broken("C04 audit worker started in a build without sched instrumentation")
+		return
+	}
+	dir, err := os.MkdirTemp("/dev/shm", "verif-c04a-")
+	if err != nil {
+		w.Broken("tempdir: %v", err)
+		return
+	}
+	defer os.RemoveAll(dir)
+	want := map[string]bool{"cat|dkvp:N=2:files=1|b=1": true, "head -n 1|dkvp:N=3:files=1|b=1": true, "tee @T then head -n 1|dkvp:N=2:files=1|b=1": true,
+		"head -n 2 then head -n 1|csv:N=3:files=1|b=2": true, "tac|json:N=3:files=1|b=1": true, `put print "p".$i|dkvp:N=2:files=1|b=1`: true,
+		"join -j g -f @L|dkvp:N=2:files=1|b=1": true, "cat then head -n 1|dkvp:N=3:files=1|b=2": true}
+	var idx uint64
+	for _, cfgs := range enumerate(true) {
+		for _, cf := range cfgs {
+			if !want[cfgKey(cf)] {
+				continue
+			}
+			idx++
+			if !w.Mine(idx) {
+				continue
+			}
+			w.Begin(idx)
+			w.Label(func() string { return "audit " + cfgKey(cf) })
+			spec := cf.spec(dir)
+			findings := vf.AuditCaching(spec, 1500)
+			for _, f := range findings[1:] {
+				w.Broken("explorer self-audit failed on %s: %s", cfgKey(cf), f)
+			}
+			r := vf.Explore(spec)
+			for o := range vf.RandomWalks(spec, 1500, int64(idx)) {
+				if _, ok := r.Outcomes[o]; !ok && !strings.HasPrefix(o, "DEADLOCK") {
+					w.Broken("explorer self-audit failed on %s: a random walk produced an outcome the exhaustive search did not: %q", cfgKey(cf), trunc(o, 200))
+				}
+			}
+			w.Count("explorer_self_audits", 1)
+			w.Count("explorer_self_audit_random_walks", 3000)
+		}
+	}
+}
+
 func run(c *vf.Ctx) {
 	c.Rule = "each configuration = (verb chain, input, --records-per-batch b); every configuration is explored over ALL goroutine schedules of the real pipeline (cooperative scheduler over rewritten channel ops/selects/spawns, DFS by re-execution, state caching on per-goroutine histories + channel contents). evaluations = executions run; distinct_nontrivial = configurations whose schedule space had at least one branching point; states = distinct global states at branching points; transitions = scheduler steps"
 	c.Assume("goroutines interact only through intercepted operations (channels, selects, close, mutex); unsynchronised shared memory is invisible to the cooperative scheduler (guarded by a separate free-running -race pass, non-deciding)")
 	c.Assume("external processes (--prepipe, tee -p, | redirects) are outside the scheduler and not explored here")
 	c.Assume("tail -f clause: line-oriented readers (dkvp nidx csv tsv jsonl csvlite) x streaming chains, one line delivered at a time through a scheduler-visible channel; checked at every quiescent state with the input still open")
-	c.Assume("inputs: N<=4 (quick) / N<=6 (thorough) records, 1-2 files, dkvp/csv/json readers; batch sizes 1..N+1")
+	c.Assume("inputs: N<=3 (quick, plus one N=5 tee-before-head family) / N<=5 (thorough) records, 1-2 files, dkvp/csv/json readers; batch sizes 1..N+1")
 	pairs := enumerate(c.Quick())
 	ncfg := 0
 	for _, p := range pairs {
 		ncfg += len(p)
+	}
+	if os.Getenv("VERIF_C04_ONLY") != "" {
+		c.Exhaustive = false
 	}
 	c.Extra["chain_input_pairs_enumerated"] = len(pairs)
 	c.Extra["configurations_enumerated"] = ncfg
@@ -607,6 +744,10 @@ func run(c *vf.Ctx) {
 		CrashKey: func(idx uint64, label, kind, tail string) (string, string) {
 			return "crash:" + label, fmt.Sprintf("worker %s while exploring %s: %s", kind, label, trunc(tail, 600))
 		}})
+	c.RunPool(vf.PoolSpec{Worker: "audit", Sched: true, Shards: 8, StallSecs: 600})
+	if c.Counters["explorer_self_audits"] < 6 {
+		c.Broken("explorer self-audit ran on %d configurations only (expected 8): the audited configuration names no longer exist", c.Counters["explorer_self_audits"])
+	}
 	c.Extra["arrival_history_configurations"] = len(arrivalConfigs(c.Quick()))
 	c.TracesValidated = c.Counters["executions_completed"]
 	c.Extra["distinct_outcome_counts_per_configuration"] = vf.SortedSet(res, "outcomes")
